@@ -166,6 +166,10 @@ func runOne(tr *drv.Tracer, sid int, s []drv.Step) {
 		// the goroutines the component has started and that are still alive, from the runtime's stack dump: a goroutine
 		// that has finished is dead for the dump as soon as synctest.Wait stops counting it (runtime.NumGoroutine lags)
 		k := runtime.Stack(stackBuf, true)
+		for k == len(stackBuf) {
+			stackBuf = make([]byte, 2*len(stackBuf))
+			k = runtime.Stack(stackBuf, true)
+		}
 		c := 0
 		for _, g := range strings.Split(string(stackBuf[:k]), "\n\n") {
 			if strings.Contains(g, "created by github.com/obolnetwork/charon/app/forkjoin.") {
